@@ -9,7 +9,8 @@
 (declare-fun pbIface (Any) Any)
 (declare-fun pbIsList (Any) Bool)
 (declare-fun snakeS (String) String)
-(assert (forall ((l Any)) (! (>= (pbLen l) 0) :pattern ((pbLen l)))))
+; a repeated field holds fewer than 2^62 elements
+(assert (forall ((l Any)) (! (and (>= (pbLen l) 0) (< (pbLen l) 4611686018427387904)) :pattern ((pbLen l)))))
 (declare-fun pbOneofs (Any) Any)
 (declare-fun pbOneofByName (Any String) Any)
 (declare-fun pbWhichOneof (Any Any) Any)
@@ -18,3 +19,42 @@
 (declare-fun lowerCamelS (String) String)
 (declare-fun pbOneofsLen (Any) Int)
 (declare-fun pbOneofsGet (Any Int) Any)
+; ---- proto write model (C18, C20) ------------------------------------------------------
+; Ghost state: pbw counts writes into *attached* protobuf state (anything not created by
+; this activation through Message.New / Message.NewField / List.NewElement); pbw0 is its
+; value at entry (content readers are only named while pbw == pbw0, i.e. before any such
+; write); the last attached write is recorded (kind, message-or-list, field, value, and the
+; version pbv of detached contents at that moment). pbv versions the contents of detached
+; lists: dlLen/dlAt(version, list[, index]).
+;@ ghost pbw Int
+;@ ghost pbw0 Int
+;@ ghost pbv Int
+;@ ghost pbwKind Int
+;@ ghost pbwMsg Any
+;@ ghost pbwFld Any
+;@ ghost pbwVal X_protoreflect_Value
+;@ ghost pbwVer Int
+(declare-fun pbDetM (Any) Bool)
+(declare-fun pbDetV (X_protoreflect_Value) Bool)
+(declare-fun pbDetL (Any) Bool)
+(declare-fun dlLen (Int Any) Int)
+(declare-fun dlAt (Int Any Int) X_protoreflect_Value)
+(declare-fun pbHas (Any Any) Bool)
+(declare-fun pbValOfMsg (Any) X_protoreflect_Value)
+(declare-fun pbValOfList (Any) X_protoreflect_Value)
+(declare-fun pbNew (Any) Any)
+(assert (forall ((v Int) (l Any)) (! (>= (dlLen v l) 0) :pattern ((dlLen v l)))))
+(declare-fun pbFieldsLen (Any) Int)
+(declare-fun pbFieldsGet (Any Int) Any)
+(declare-fun pbCard (Any) Int)
+; ---- extensions (C20): the URL of an extension, by pointer (named results of the generated
+; getters Extension.GetUrl and Uri.GetValue), and the number of extensions among the first i
+; whose URL differs from u
+(declare-fun extUrlP (Int) Int)
+(declare-fun uriValS (Int) String)
+(declare-fun extValP (Int) Int)
+(declare-fun extsOf (Any) Slice_Int)
+(define-fun extUrl ((p Int)) String (uriValS (extUrlP p)))
+(define-fun-rec ukLen ((u String) (c Slice_Int) (i Int)) Int
+  (ite (<= i 0) 0 (+ (ukLen u c (- i 1)) (ite (= (extUrl (select (arr_Int c) (- i 1))) u) 0 1))))
+(declare-fun extRefl (Int) Any)
